@@ -369,6 +369,35 @@ func cmdCheck(args []string) int {
 		assumptions = append(assumptions, n)
 		trusted = append(trusted, n)
 	}
+	// axioms behind the contracts of callees that this check uses without re-proving them
+	axiomOf := map[string]*Lemma{}
+	for _, lm := range l.cs.Lemmas {
+		if lm.Axiom {
+			axiomOf[lm.Name] = lm
+		}
+	}
+	seenAx := map[string]bool{}
+	for _, k := range sortedKeys(e.funcsUsed) {
+		fn := l.byKey[k]
+		if fn == nil || l.bound[fn] == nil {
+			continue
+		}
+		ct := l.bound[fn]
+		var cls []Clause
+		cls = append(cls, ct.Uses...)
+		cls = append(cls, ct.UsesAtRet...)
+		for _, v := range ct.LoopUse {
+			cls = append(cls, v...)
+		}
+		for _, cl := range cls {
+			for name, lm := range axiomOf {
+				if strings.Contains(cl.Src, name+"(") && !seenAx[name+"|"+k] {
+					seenAx[name+"|"+k] = true
+					assumptions = append(assumptions, "AXIOM "+name+" (assumed, not proved) is used in the proof of the callee contract "+k+": "+lm.Src)
+				}
+			}
+		}
+	}
 	assumptions = append(assumptions, propertyAssumptions(prop)...)
 	assumptions = append(assumptions, ifaceAssumed...)
 	for _, k := range soundOnly {
